@@ -16,7 +16,11 @@ FINISH = dict(level="proof", rule=(
     "names that are hidden, 255 bytes long, contain newlines, spaces, dashes, non-ASCII bytes or look like '...', directories "
     "left with mode 000, 'many' (up to 300; thorough 20000) entries and chains deeper than PATH_MAX (3000 levels); non-trivial: "
     "a history leaving at least 3 kinds of entry and one 000 directory.  memfd: sizes 0..4 MiB around page and buffer boundaries "
-    "x 14 reader kinds (among them files, byte readers and section readers whose beginning was already consumed); non-trivial: size > 0 with a reader that is not a plain byte slice; distinct = distinct cases."))
+    "x 14 reader kinds (among them files, byte readers and section readers whose beginning was already consumed), and readers that "
+    "are descriptors of an in-memory file of the supplier in each of the 32 seal states (plus one that does not allow sealing), handed over as the "
+    "supplier's own descriptor, a duplicate or a read-only re-open, at the start or behind a consumed header: besides content, position, "
+    "seals and refusal of every modification, the sealed file must not follow the supplier's later use of its reader or of its file; "
+    "executables whose program attacks its image while running from it and again after exec'ing another binary with kept descriptors; non-trivial: size > 0 with a reader that is not a plain byte slice; distinct = distinct cases."))
 
 HDR = "From Coq Require Import List NArith.\nImport ListNotations.\nFrom GS Require Import Container.Reset Container.EvalReset.\n"
 NAMES = ["a", "b", "c", ".hidden", "...", " sp ace", "-dash", "né", "nl\nx", "x" * 255, ".x", "tmp", "w", "core", "\x01\x7f"]
@@ -30,6 +34,20 @@ class Names:
 
     def num(self, s):
         return self.n.setdefault(s, len(self.n))
+
+
+def split_args(args, limit=30000):
+    """the plant arguments (triples) cut into consecutive lists none of which exceeds the size one request can carry"""
+    parts, cur, size = [], [], 0
+    for i in range(0, len(args), 3):
+        t = args[i:i + 3]
+        n = sum(len(a.encode("utf-8", "surrogateescape")) + 4 for a in t)
+        if cur and size + n > limit:
+            parts.append(cur)
+            cur, size = [], 0
+        cur += t
+        size += n
+    return parts + [cur] if (cur or not parts) else parts
 
 
 def gen_history(r, mounts, big):
@@ -110,7 +128,10 @@ def gen_history(r, mounts, big):
                 tr.sort(key=lambda t: -t[1].count("/"))
                 args += [x for t in tr for x in t]
             # some programs are started with the sync after exec and their callback then fails: they ran, the host saw a failed launch
-            runs.append({"args": args} if (ri == 0 and nruns > 1 and r.random() < 0.3) else args)
+            wrap = ri == 0 and nruns > 1 and r.random() < 0.3
+            # one request of the container protocol carries at most 32 KiB: a longer program is run as two consecutive programs
+            for part in split_args(args):
+                runs.append({"args": part} if wrap else part)
         cycles.append(runs)
         model.append((mops, kinds))
     return cycles, model
@@ -211,7 +232,7 @@ def run(c):
     c.sample({"history": [(a["args"] if isinstance(a, dict) else a)[:12] for a in cases[0]["cycles"][0]], "observed": {k: v for k, v in obs[0]["cycles"][0].items() if k != "before"},
               "top_level_before": {m: len(v or []) for m, v in obs[0]["cycles"][0]["before"].items()}})
     body = HDR + "Definition cs : list (list (bool * list (list nat * nat * node) * list nat * list nat)) := %s.\nDefinition M := Eval vm_compute in failing history_ok cs.\nPrint M.\n" % coq_list(items)
-    for i in c.parse_nums(c.parse_printed(c.coq_eval("reset", body, timeout=1200), "M").replace("%N", "")):
+    for i in c.parse_nums(c.parse_printed(c.coq_eval("reset", body, timeout=1200 if c.quick() else 5400), "M").replace("%N", "")):
         hid, ci = item_src[i]
         dis.append({"relation": "history_ok (top-level names before and after Reset equal those of populate / reset)", "history": cases[hid]["cycles"][:ci + 1],
                     "observed": obs[hid]["cycles"][ci]["after_host"]})
@@ -246,6 +267,29 @@ def run(c):
     # large executables: whatever the size, all of it
     for s, rd in [((128 << 20) + 4113, "bytes"), ((128 << 20) + 1, "pipe")] + ([((160 << 20), "file"), ((128 << 20), "half")] if not c.quick() else []):
         mc.append({"mode": "memfd", "size": s, "seed": r.randint(1, 1 << 30), "reader": rd})
+    # the supplied bytes live in an in-memory file of the supplier (e.g. a cache of executables): every seal state the supplier may have
+    # chosen for it x the descriptor it hands over x where that descriptor stands
+    msizes = [0, 1, 2, 4095, 4096, 4097, 65537, 300001]
+    for seals in range(32):
+        for off in (0, r.choice([1, 7, 4096, 5000])):
+            for handle in ("own", "dup", "reopen_ro"):
+                for s in ([r.choice(msizes)] if c.quick() else r.sample(msizes, 3)):
+                    mc.append({"mode": "memfd", "size": s, "seed": r.randint(1, 1 << 30), "reader": "memfd", "src_seals": seals, "src_off": off,
+                               "src_handle": handle})
+    for off in (0, 3):
+        for handle in ("own", "dup", "reopen_ro"):
+            mc.append({"mode": "memfd", "size": r.choice(msizes[1:]), "seed": r.randint(1, 1 << 30), "reader": "memfd", "src_seals": 0, "src_off": off,
+                       "src_handle": handle, "src_nosealing": True})
+    # programs that attack their executable while running from it and after replacing their image by another binary
+    c.build_probe("exeaway")
+    away = [("bytes", {}), ("pipe", {}), ("file", {}), ("dataerr", {}), ("memfd", {"src_nosealing": True, "src_seals": 0})]
+    away += [("memfd", {"src_seals": q}) for q in ([0, 8, 9, 10, 11, 13, 15, 16, 24, 25, 31] if c.quick() else range(32))]
+    for rd, extra in away:
+        for s in ([r.choice([0, 1, 4096, 100000])] if c.quick() else [0, 4097]):
+            x = dict({"mode": "memfd", "size": s, "seed": r.randint(1, 1 << 30), "reader": rd, "prog": "exeaway"}, **extra)
+            if rd == "memfd":
+                x.update(src_off=0 if r.random() < 0.8 else 64, src_handle=r.choice(["own", "dup", "reopen_ro"]))
+            mc.append(x)
     for i, x in enumerate(mc):
         x["id"] = i
     mobs = c.run_harness(exe, mc, env=env, timeout=1800)
@@ -303,6 +347,16 @@ def run(c):
         if x.get("elf"):
             if o.get("run_status") != 1 or "modified=0" not in (o.get("run_out") or ""):
                 bad.append("program executed from the sealed file: status %s output %r %s" % (o.get("run_status"), o.get("run_out"), o.get("run_err")))
+        if o.get("pos_after_supplier_seeks"):
+            bad.append("position follows the supplier's reader: at %s after the supplier moved its own descriptor" % o["pos_after_supplier_seeks"][:4])
+        if "src_len" in o and (o["src_len"], o["src_sum"], o["src_seals"]) != (o["after_len"], o["after_sum"], o["after_seals"]):
+            bad.append("content or seals changed through the supplier's file: the supplier did %s, %d bytes left" % (",".join(o.get("supplier_did") or []), o["src_len"]))
+        if x.get("prog"):
+            if o.get("away_status") != 1 or o.get("away_exit") != 0 or "inplace=0 away=0 " not in (o.get("away_out") or "") + " ":
+                bad.append("program changed or could not run its sealed executable: status %s exit %s output %r %s" % (
+                    o.get("away_status"), o.get("away_exit"), o.get("away_out"), o.get("away_err")))
+            if (o.get("away_len"), o.get("away_sum"), o.get("away_seals")) != (o["len"], o["sum"], o["seals"]):
+                bad.append("content or seals changed by the program: %s of %s bytes, seals %s" % (o.get("away_len"), o["len"], o.get("away_seals")))
         for b in bad:
             c.finding_or_violation(canon(b.split(" (")[0].split(":")[0]), dict(rep, detail=b), klass="memfd:" + b.split(" (")[0].split(":")[0])
         if sim is not None and "bytes" in o:
@@ -329,7 +383,7 @@ def run(c):
         obs_c = "None" if ob is None else "Some (%s, %d, %s)" % (coq_list(["%d%%N" % b for b in data]), ob[1], "true" if ob[2] else "false")
         cq.append("(%s, %s)" % (coq_list(reads), obs_c))
     body = HDR + "Definition cs : list (reader * option (list N * nat * bool)) := %s.\nDefinition M := Eval vm_compute in failing memfd_ok cs.\nPrint M.\n" % coq_list(cq)
-    for i in c.parse_nums(c.parse_printed(c.coq_eval("memfd", body, timeout=1200), "M").replace("%N", "")):
+    for i in c.parse_nums(c.parse_printed(c.coq_eval("memfd", body, timeout=1200 if c.quick() else 5400), "M").replace("%N", "")):
         dis.append({"relation": "memfd_ok (content, position, refusal equal those of dup_to_memfd)", "case": mc[msrc[i]],
                     "observed": {k: v for k, v in mobs[msrc[i]].items() if not k.endswith("bytes")}})
     c.sample({"memfd_case": mc[5], "observed": {k: v for k, v in mobs[5].items() if not k.endswith("bytes")}})
